@@ -244,7 +244,15 @@ fn flate_lzw_filter(
         Ok(ParseBuffer::new(decoded))
     } else if predictor == 2 {
         // TIFF encoding
-        let row_length = columns * colors;
+        let row_length = match columns.checked_mul(colors) {
+            Some(n) => n,
+            None => {
+                let err = ErrorKind::TransformError(
+                    "TIFF predictor: row size overflows for specified columns".to_string(),
+                );
+                return Err(locate_value(err, loc.loc_start(), loc.loc_end()))
+            },
+        };
         if row_length < 1 {
             // No data.
             return Ok(ParseBuffer::new([].to_vec()))
@@ -283,7 +291,15 @@ fn flate_lzw_filter(
         Ok(ParseBuffer::new(out_buffer))
     } else if (10..=15).contains(&predictor) {
         // PNG
-        let row_length = columns * colors + 1;
+        let row_length = match columns.checked_mul(colors).and_then(|n| n.checked_add(1)) {
+            Some(n) => n,
+            None => {
+                let err = ErrorKind::TransformError(
+                    "PNG filter: row size overflows for specified columns".to_string(),
+                );
+                return Err(locate_value(err, loc.loc_start(), loc.loc_end()))
+            },
+        };
         let rows = decoded.len() / row_length;
         let bytes_per_pixel = bitspercolumn / 8;
 
